@@ -1,6 +1,7 @@
 """C17 – movement, candle-shape and pattern predicates mean what they document."""
 from ..oracles import analysis as oa
 from ..oracles import common as cm
+from ..oracles import framework as fw
 
 ID = "C17"
 LEAN_MODULE = "HexProps.C17"
@@ -31,7 +32,11 @@ def oracle(ctx):
         cm.run_cases(oa.case_c17_geometry, ctx["seed"], ID + "g", 400 * k * b, sz),
         cm.run_cases(oa.case_c17_pattern, ctx["seed"], ID + "p", 2040 * k * b, sz),
         cm.run_cases(oa.case_c17_invariance, ctx["seed"], ID + "i", 1600 * k * b, sz),
+        cm.run_cases(fw.c17_geometry_live_case, ctx["seed"], ID + "gl", 300 * k * b, sz),
     )
 
 
-replay = oa.replay
+def replay(w):
+    if "chunks" in w["scenario"] and "spec" in w["scenario"]:
+        return fw.c17_geometry_live_replay(w)
+    return oa.replay(w)
